@@ -171,11 +171,21 @@ pub fn graph_case(case: &Value, _dispatch: Dispatch, r: &mut Report) {
         );
     }
     // streams citing object numbers: the reference decoder's verdict
+    let mut streams: Vec<(Vec<u8>, &Value)> = Vec::new();
     for t in case["tampers"].as_array().unwrap() {
-        r.count("graph_tamper");
         let mut bt = b.clone();
         bt[t[0].as_u64().unwrap() as usize - 1] = t[1].as_u64().unwrap() as u8;
-        let v = t[2].as_array().unwrap();
+        streams.push((bt, &t[2]));
+    }
+    // long chains: the last item (a back-reference) replaced by another object number
+    for t in case.get("tails").and_then(|x| x.as_array()).map(|a| a.as_slice()).unwrap_or(&[]) {
+        let mut bt = b[..t[0].as_u64().unwrap() as usize].to_vec();
+        bt.extend(bytes_of(&t[1]));
+        streams.push((bt, &t[2]));
+    }
+    for (bt, verdict) in streams {
+        r.count("graph_tamper");
+        let v = verdict.as_array().unwrap();
         let got = decode(&bt);
         let ok = match (&got, v[0].as_str().unwrap()) {
             (Outcome::Ok((c, left)), "ok") => *c == v[1] && bt.len() - left == v[2].as_u64().unwrap() as usize,
